@@ -318,3 +318,49 @@ pub fn notes_batch(v: &Value) -> Value {
     let _ = std::fs::remove_dir_all(&dir);
     json!({"ok": r.is_ok(), "error": r.err().map(|e| e.to_string()), "commits": per})
 }
+
+/// {file, sessions: [[hash, [line..]]..], base, records: [hash..]}: the text of a note attesting those lines
+pub fn note_text(v: &Value) -> Value {
+    use git_ai::authorship::authorship_log::{LineRange, PromptRecord};
+    use git_ai::authorship::authorship_log_serialization::{AttestationEntry, AuthorshipLog};
+    use git_ai::authorship::working_log::AgentId;
+    let mut log = AuthorshipLog::new();
+    log.metadata.base_commit_sha = v["base"].as_str().unwrap().to_string();
+    for r in v["records"].as_array().unwrap() {
+        let h = r.as_str().unwrap();
+        log.metadata.prompts.insert(
+            h.to_string(),
+            PromptRecord {
+                agent_id: AgentId { tool: format!("tool-{h}"), id: format!("id-{h}"), model: "m".into() },
+                human_author: None,
+                messages: vec![],
+                total_additions: 0,
+                total_deletions: 0,
+                accepted_lines: 0,
+                overriden_lines: 0,
+                messages_url: None,
+            },
+        );
+    }
+    let file = v["file"].as_str().unwrap();
+    for s in v["sessions"].as_array().unwrap() {
+        let lines: Vec<u32> = s[1].as_array().unwrap().iter().map(|x| x.as_u64().unwrap() as u32).collect();
+        let fa = log.get_or_create_file(file);
+        fa.add_entry(AttestationEntry::new(s[0].as_str().unwrap().to_string(), LineRange::compress_lines(&lines)));
+    }
+    json!({"text": log.serialize_to_string().unwrap()})
+}
+
+/// K4: {repo, original_head, originals: [sha..], news: [sha..]}: the real slow-path rewrite
+pub fn rebase_loop(v: &Value) -> Value {
+    let repo = git_ai::git::find_repository_in_path(v["repo"].as_str().unwrap()).expect("repo");
+    let list = |k: &str| -> Vec<String> { v[k].as_array().unwrap().iter().map(|x| x.as_str().unwrap().to_string()).collect() };
+    let r = git_ai::authorship::rebase_authorship::rewrite_authorship_after_rebase_v2(
+        &repo,
+        v["original_head"].as_str().unwrap(),
+        &list("originals"),
+        &list("news"),
+        "Human",
+    );
+    json!({"ok": r.is_ok(), "error": r.err().map(|e| e.to_string())})
+}
